@@ -57,6 +57,22 @@ func compareViews(c hsCase, ri, rr *partyResult) []string {
 	if vi.Version != vr.Version {
 		diff = append(diff, fmt.Sprintf("version(i=%d,r=%d)", vi.Version, vr.Version))
 	}
+	if vi.Version == vr.Version {
+		v := vi.Version
+		cMin, sMin := c.cMin, c.sMin
+		if c.kk {
+			// KK raises the minimum to 2
+			if cMin < 2 {
+				cMin = 2
+			}
+			if sMin < 2 {
+				sMin = 2
+			}
+		}
+		if v < cMin || v > c.cMax || v < sMin || v > c.sMax {
+			diff = append(diff, fmt.Sprintf("version-outside-range(v=%d)", v))
+		}
+	}
 	if vi.SendKey != vr.RecvKey || vi.RecvKey != vr.SendKey {
 		diff = append(diff, "traffic-keys")
 	}
